@@ -68,7 +68,7 @@ def reserved (n : Name) : Bool := Generated.c16Keywords.contains (norm n)
 /-! ## project structure -/
 
 inductive DKind
-  | var | param | func | fb | prog | method | stype | field | cfg | task | inst
+  | var | param | func | fb | prog | method | stype | field | cfg | task | inst | enumval
   deriving DecidableEq, Repr, Inhabited
 
 inductive OKind
@@ -135,10 +135,11 @@ def declsIn (P : Project) (s : Nat) : List Decl := P.decls.filter (fun c => c.sc
 /-- The GLOBAL scope of file `f` after `import_table`: own global declarations, then the root
 symbols of the other files in file order (a name already present is not imported, which first-match
 lookup reproduces).  VAR_GLOBAL variables of a CONFIGURATION are children of the configuration
-symbol, hence not root symbols, hence not imported. -/
+symbol, hence not root symbols, hence not imported; the same holds for enum values (children of the
+TYPE symbol).  `stype` stands for every TYPE declaration (struct, enum, alias). -/
 def globalView (P : Project) (f : Nat) : List Decl :=
   P.decls.filter (fun c => c.scope == 0 && c.file == f) ++
-  P.decls.filter (fun c => c.scope == 0 && c.file != f && c.kind != .var)
+  P.decls.filter (fun c => c.scope == 0 && c.file != f && c.kind != .var && c.kind != .enumval)
 
 /-- All declarations `SymbolTable::resolve(name, s)` can see from scope `s` of file `f`, in lookup order. -/
 def cands (P : Project) (f s : Nat) : List Decl :=
